@@ -14,6 +14,7 @@ from common import Report, say
 from hsim import batch, core, faultsim as FS, regridsim as RS
 
 SIZES = {"quick": (26, 6), "thorough": (520, 90)}
+CIRC_TAILS = {"quick": 8, "thorough": 120}
 
 METHOD_SETS = (
     ["integrate+newton", "integrate"], ["newton", "integrate+newton", "integrate"],
@@ -118,6 +119,18 @@ def _regrid_case(seed, i):
     s = core.run_seed(seed, "c01-regrid", i)
     case = RS.make_case(core.stream(s, "case"), geoms=("lsn", "cdn", "usn", "ldn", "udn"),
                         np_choices=(1, 1, 2))
+    if i % 3 == 1:
+        # stratum: the history ends with a regrid that raises half-way (some contours
+        # already moved, none refined yet) and the grid is written all the same
+        rng2 = core.stream(s, "tail")
+        pool = RS.settings_pool(case["workload"]["geometry"])
+        bad = dict(rng2.choice(pool))
+        op = {"op": "regrid", "s": bad, "tag": "outside"}
+        if (i // 3) % 2:
+            bad.update(rng2.choice(RS.OUTSIDE))
+        else:
+            op["refuse_at"] = rng2.choice((2, 3, 4, 6, 9, 13, 20, 30))
+        case["ops"] += [op, {"op": "write"}]
     case["check_psi"] = True
     case["sched_seed"] = s % 10**9
     return case
@@ -128,7 +141,14 @@ def _grid_job(case):
 
 
 def _regrid_job(case):
+    if case["workload"]["geometry"] == "circ":
+        return RS.run_circ_tail(case)
     return RS.run_case(case)
+
+
+def _circ_tail_case(seed, i):
+    s = core.run_seed(seed, "c01-circ-tail", i)
+    return RS.make_circ_tail_case(core.stream(s, "case"))
 
 
 def main(tier, seed):
@@ -137,6 +157,9 @@ def main(tier, seed):
     ng, nr = SIZES[tier]
     gcases = [_grid_case(seed, i) for i in range(ng)]
     rcases = [_regrid_case(seed, i) for i in range(nr)]
+    # circular regrid tails: cheap, and the topology in which a regrid is refused in the
+    # middle of a region most readily
+    rcases += [_circ_tail_case(seed, i) for i in range(CIRC_TAILS[tier])]
     stats = collections.Counter()
     fired = collections.Counter()
     sigs = set()
@@ -182,10 +205,17 @@ def main(tier, seed):
             psi = r.get("psi")
             if psi:
                 stats["grids_evaluated"] += 1
-                stats["regrid_final_states_evaluated"] += 1
+                stats["regrid_histories_evaluated"] += 1
                 worst = max(worst, psi["max_resid"], psi["max_resid_vs_psixy"])
                 points += psi["points"]
-                sigs.add(("regrid",) + RS.shape_of(c))
+                if c["workload"]["geometry"] == "circ":
+                    sigs.add(("circ-tail", tuple(o[1] for o in r["outcomes"])))
+                    fired["write_after_failed_regrid_judged"] += \
+                        r["probes"].get("write_after_failed_regrid_judged", 0)
+                else:
+                    sigs.add(("regrid",) + RS.shape_of(c))
+                    fired["write_after_failed_regrid_judged"] += \
+                        (r.get("probes") or {}).get("write_after_failed_regrid_judged", 0)
                 if psi["violations"]:
                     rep.violation(f"OFF_SURFACE:regrid:{c['workload']['geometry']}",
                                   dict(r, violation={"class": "OFF_SURFACE",
